@@ -370,6 +370,38 @@ func c15Replace(c *core.Ctx, src []byte, ver string, r *core.Rand) {
 			fmt.Sprintf("replacing %s.%s (%s, source %q) changed output outside the subtree: %s", obs.Kind(s.parent), s.field, obs.Kind(s.node), join(before.Chunks[lo:hi]), obs.FirstDiff(pre+string(marker)+post, after)), w)
 		return
 	}
+	// second replacement: a token-less word (an Identifier that only has a Value, as hand-written code
+	// builds it). The word must come out whole: with a blank wherever its neighbour would fuse with it.
+	word := "zqword7"
+	setSlot(s, &ast.Identifier{Value: []byte(word)})
+	after2, p2 := printString(pr.Root)
+	setSlot(s, s.node)
+	if p2 != nil {
+		c.Violation(p2.Sig, "printer panicked after replacing a subtree by a token-less identifier: "+p2.Msg, w)
+		return
+	}
+	identCh := func(b byte) bool {
+		return b == '_' || b >= 0x80 || (b >= '0' && b <= '9') || (b >= 'a' && b <= 'z') || (b >= 'A' && b <= 'Z')
+	}
+	ok2 := false
+	for _, a := range []string{pre, strings.TrimSuffix(pre, " "), pre + " "} {
+		for _, b := range []string{post, strings.TrimPrefix(post, " "), " " + post} {
+			if after2 != a+word+b {
+				continue
+			}
+			fusedLeft := len(a) > 0 && identCh(a[len(a)-1])
+			fusedRight := len(b) > 0 && identCh(b[0])
+			if !fusedLeft && !fusedRight {
+				ok2 = true
+			}
+		}
+	}
+	c.Add("token_less_word_replacements", 1)
+	if !ok2 {
+		c.Violation("print|replace-word|"+obs.Kind(s.parent)+"."+s.field+"|word-fused-or-surroundings-changed",
+			fmt.Sprintf("replacing %s.%s (%s, source %q) by a token-less identifier %q: the word is fused with a neighbour or the output outside it changed: %s", obs.Kind(s.parent), s.field, obs.Kind(s.node), join(before.Chunks[lo:hi]), word, obs.FirstDiff(pre+" "+word+" "+post, after2)), w)
+		return
+	}
 	c.NonTrivial(src, []byte(ver), []byte(fmt.Sprint(lo, hi)))
 	if c.WantSample() && len(src) < 200 {
 		c.Sample(map[string]interface{}{"source": string(src), "replaced": obs.Kind(s.parent) + "." + s.field, "output_after": after})
